@@ -48,6 +48,12 @@ def top_of_space(rng, count):
                     ops.append((9, addr, TOP - addr - 1))
                 scr = rng.choice([(1, 1, 1, 0), (1, 2), (0,), (1, 1, 2)])
                 ops.append((9, addr, TOP - addr) + scr)
+            # block reads whose length runs past the last address (addr + n > 2^32, n still a 32-bit count): the tables lie low, so the
+            # first unmapped address is an ordinary one and must be reported; nothing may be delivered
+            if addr >= 4:
+                for n in (TOP - addr + 1, TOP - addr + 3, TOP - 1, 2**31 + 5):
+                    if n < TOP:
+                        ops.append((7, addr, n))
         yield tab.line(ops)
 
 _gen0 = gen
